@@ -292,6 +292,12 @@ fn run_map(ops: &[&str], ctx: &mut Ctx) -> String {
     // for every allocation that has not been looked up ("answered") yet
     let mut held: HashMap<i16, u64> = HashMap::new();
     let mut orphaned_reqs: HashSet<u64> = HashSet::new();
+    // exact shadow of the orphan marks, valid while request ids are unique (as they are on a real connection):
+    // request -> its live stream, and the set of streams whose owner was abandoned
+    let mut req_stream: HashMap<u64, i16> = HashMap::new();
+    let mut orphan_streams: HashSet<i16> = HashSet::new();
+    let mut seen_reqs: HashSet<u64> = HashSet::new();
+    let mut unique_reqs = true;
     let mut fresh = 1_000_000u64;
     let mut out: Vec<String> = Vec::new();
 
@@ -444,6 +450,8 @@ fn run_map(ops: &[&str], ctx: &mut Ctx) -> String {
 #[derive(Default)]
 pub(crate) struct Gate {
     closed: bool,
+    /// writes and flushes fail from now on (`w`)
+    fail: bool,
     waker: Option<Waker>,
 }
 
@@ -463,6 +471,9 @@ impl AsyncWrite for Gated {
     fn poll_write(mut self: Pin<&mut Self>, cx: &mut Context<'_>, buf: &[u8]) -> Poll<std::io::Result<usize>> {
         {
             let mut g = self.gate.lock().unwrap();
+            if g.fail {
+                return Poll::Ready(Err(std::io::Error::from(std::io::ErrorKind::BrokenPipe)));
+            }
             if g.closed {
                 g.waker = Some(cx.waker().clone());
                 return Poll::Pending;
@@ -473,6 +484,9 @@ impl AsyncWrite for Gated {
     fn poll_flush(mut self: Pin<&mut Self>, cx: &mut Context<'_>) -> Poll<std::io::Result<()>> {
         {
             let mut g = self.gate.lock().unwrap();
+            if g.fail {
+                return Poll::Ready(Err(std::io::Error::from(std::io::ErrorKind::BrokenPipe)));
+            }
             if g.closed {
                 g.waker = Some(cx.waker().clone());
                 return Poll::Pending;
@@ -701,7 +715,7 @@ impl ConnSim {
     pub async fn op(&mut self, op: &str, ctx: &mut Ctx) -> bool {
         let Some((c, arg)) = split_op(op) else { return false };
         match c {
-            's' | 'S' | 'g' | 'G' | 'x' => {
+            's' | 'S' | 'g' | 'G' | 'x' | 'w' => {
                 if !arg.is_empty() {
                     return false;
                 }
@@ -718,6 +732,13 @@ impl ConnSim {
                         return true;
                     }
                     'G' => self.set_gate(false),
+                    'w' => {
+                        let mut g = self.gate.lock().unwrap();
+                        g.fail = true;
+                        if let Some(w) = g.waker.take() {
+                            w.wake();
+                        }
+                    }
                     _ => {
                         if self.server.take().is_some() && self.broken.is_none() {
                             self.must_break = Some("the server closed the connection".to_owned());
@@ -758,7 +779,7 @@ impl ConnSim {
                 if self.unanswered.iter().any(|(st, _)| *st == s) {
                     return true;
                 }
-                if self.gate_closed() && s < 1000 {
+                if self.gate_closed() && s < 2000 {
                     return true; // might be allocated to a frame the server has not seen: not "unsolicited"
                 }
                 self.sent.push((None, s, body.to_vec()));
@@ -767,6 +788,12 @@ impl ConnSim {
                 }
                 self.server_write(&response_frame(s, &body)).await;
                 self.settle(ctx).await;
+                true
+            }
+            'C' => {
+                // drop the future and do NOT let the router run: the orphan notice races the next operation
+                let Ok(n) = arg.parse::<usize>() else { return false };
+                self.cancel(n);
                 true
             }
             'c' | 'p' | 'r' | 't' => {
@@ -801,15 +828,19 @@ impl ConnSim {
             self.set_gate(false);
         }
         self.settle(ctx).await;
+        // (poll every future, let the router run) x 3, then poll again: a caller that was parked at the full submit
+        // channel pushes its task when polled, the writer then writes it.
         // tokio's cooperative budget lets one task poll complete at most 128 channel operations: yield between
         // batches so that every ready future is really observed
-        for k in 0..self.futures.len() {
-            self.poll_req(k, ctx);
-            if k % 64 == 63 {
-                tokio::task::yield_now().await;
+        for _ in 0..3 {
+            for k in 0..self.futures.len() {
+                self.poll_req(k, ctx);
+                if k % 64 == 63 {
+                    tokio::task::yield_now().await;
+                }
             }
+            self.settle(ctx).await;
         }
-        tokio::task::yield_now().await;
         for k in 0..self.futures.len() {
             self.poll_req(k, ctx);
             if k % 64 == 63 {
